@@ -98,6 +98,11 @@ def run(facts, R):
             R.check(not loads, "permit-before-spawn", b.path, "slot accounting is one atomic operation",
                     "the off-reader slot count is updated by load + store on %s (value %s): a permit released concurrently between the two is lost or double counted, "
                     "so the cap drifts away from the configured limit" % (tgt, render(val)[:120]), t.get("span"), tgt)
+    late = [c.path for c in facts.bodies.values() if c.path.startswith(b.path + "::{closure") and any(t_["callee"]["name"] in ("try_acquire_owned", "try_acquire", "acquire_owned") for _, t_ in c.calls())]
+    if not acq and late:
+        R.bad("permit-before-spawn", b.path, "permit taken before the spawn",
+              "the permit is acquired inside the spawned closure (%s), after spawn_blocking returned: between the reader's saturation test and that acquire the "
+              "semaphore still shows a free slot, so a burst of requests is admitted beyond the cap and runs without permits" % late, b.span)
     R.check(len(acq) == 1 and len(spw) == 1, "permit-before-spawn", b.path, "shape", "try_acquire_owned=%d spawn_blocking=%d" % (len(acq), len(spw)), b.span)
     if len(acq) != 1 or len(spw) != 1:
         return
